@@ -69,8 +69,9 @@ impl SocketRecv for DealerSocket {
                 Some((_peer_id, Ok(_))) => {
                     // Ignore non-message frames
                 }
-                Some((_peer_id, Err(e))) => {
-                    // Handle potential errors from the fair queue
+                Some((peer_id, Err(e))) => {
+                    // A connection that failed is forgotten, like the other socket types do
+                    self.backend.peer_disconnected(&peer_id);
                     return Err(e.into());
                 }
                 None => {
